@@ -1,6 +1,6 @@
 //! [`Uint`] bitwise left shift operations.
 
-use crate::{ConstChoice, ConstCtOption, Limb, ShlVartime, Uint, Word, WrappingShl};
+use crate::{ConstChoice, ConstCtOption, Limb, ShlVartime, Uint, WrappingShl};
 use core::ops::{Shl, ShlAssign};
 use subtle::CtOption;
 
@@ -145,17 +145,17 @@ impl<const LIMBS: usize> Uint<LIMBS> {
     pub(crate) const fn shl_limb(&self, shift: u32) -> (Self, Limb) {
         let mut limbs = [Limb::ZERO; LIMBS];
 
-        let nz = ConstChoice::from_u32_nonzero(shift);
         let lshift = shift;
-        let rshift = nz.if_true_u32(Limb::BITS - shift);
-        let carry = nz.if_true_word(self.limbs[LIMBS - 1].0.wrapping_shr(Word::BITS - shift));
+        // (x >> 1) >> (BITS - 1 - shift) == x >> (BITS - shift) for 0 < shift < BITS and 0 for shift == 0
+        let rshift = Limb::BITS - 1 - shift;
+        let carry = (self.limbs[LIMBS - 1].0 >> 1) >> rshift;
 
         limbs[0] = Limb(self.limbs[0].0 << lshift);
         let mut i = 1;
         while i < LIMBS {
             let mut limb = self.limbs[i].0 << lshift;
-            let hi = self.limbs[i - 1].0 >> rshift;
-            limb |= nz.if_true_word(hi);
+            let hi = (self.limbs[i - 1].0 >> 1) >> rshift;
+            limb |= hi;
             limbs[i] = Limb(limb);
             i += 1
         }
